@@ -324,3 +324,158 @@ Lemma scope_okb_ok p V : scope_okb p V = true -> scope_ok p V.
 Proof.
   unfold scope_okb, scope_ok. rewrite forallb_forall. intros H col root x E W. specialize (H _ (cassoc_In _ _ _ E)). cbn [snd] in H. now rewrite W in H.
 Qed.
+
+(* ---------------- what a run at scope p leaves outside p ---------------- *)
+Fixpoint is_prefix (p q : path) : bool :=
+  match p, q with
+  | [], _ => true
+  | a :: p', b :: q' => name_eqb a b && is_prefix p' q'
+  | _ :: _, [] => false
+  end.
+Lemma is_prefix_app p q : is_prefix p (p ++ q) = true.
+Proof. induction p as [|a p IH]; [reflexivity|]. cbn [app is_prefix]. now rewrite name_eqb_refl, IH. Qed.
+Lemma is_prefix_split p q : is_prefix p q = true -> exists r, q = p ++ r.
+Proof.
+  revert q. induction p as [|a p IH]; intros q H; [now exists q|]. destruct q as [|b q]; [discriminate|]. cbn [is_prefix] in H.
+  apply andb_true_iff in H as [E H]. apply name_eqb_eq in E. subst b. destruct (IH _ H) as [r ->]. now exists r.
+Qed.
+
+(* a write below p leaves every value stored outside p as it was *)
+Lemma put_at_outside : forall p q nm v root root', put_at (p ++ q) nm v root = Some root' ->
+  forall Q M, is_prefix p Q = false -> nget root' Q M = nget root Q M.
+Proof.
+  induction p as [|k r IH]; intros q nm v root root' H Q M NP; [discriminate|].
+  cbn [app] in H. destruct root as [x|kids]; [discriminate|]. cbn [put_at] in H.
+  destruct (put_at (r ++ q) nm v _) as [sub'|] eqn:E; [|discriminate]. inv H.
+  destruct Q as [|k' Q'].
+  - (* a name at the top level *)
+    unfold nget. cbn [walk]. destruct (name_eqb M k) eqn:Ek.
+    + apply name_eqb_eq in Ek. subst M. rewrite nassoc_nset_same.
+      pose proof (put_at_node _ _ _ _ _ E) as N. destruct sub' as [x|ks]; [contradiction|].
+      destruct (nassoc k kids) as [[x|ks0]|] eqn:Ea; try reflexivity.
+      (* a leaf at k would have blocked the write *)
+      exfalso. destruct (r ++ q); discriminate.
+    + rewrite nassoc_nset_other by (intros ->; now rewrite name_eqb_refl in Ek). reflexivity.
+  - cbn [is_prefix] in NP. rewrite !nget_cons. destruct (name_eqb k' k) eqn:Ek.
+    + apply name_eqb_eq in Ek. subst k'. rewrite name_eqb_refl in NP. cbn [andb] in NP. rewrite nassoc_nset_same.
+      rewrite (IH _ _ _ _ _ E Q' M NP). destruct (nassoc k kids); [reflexivity|]. now rewrite nget_empty.
+    + rewrite nassoc_nset_other by (intros ->; now rewrite name_eqb_refl in Ek). reflexivity.
+Qed.
+
+Lemma put_var_outside t col p q nm v t' : put_var t col (p ++ q) nm v = Some t' ->
+  forall c Q M, is_prefix p Q = false -> get_var t' c Q M = get_var t c Q M.
+Proof.
+  unfold put_var. intros H c Q M NP. destruct (put_at (p ++ q) nm v _) as [root'|] eqn:E; [|discriminate]. inv H.
+  rewrite !get_var_nget, cassoc_cset. destruct (N.eqb_spec c col) as [->|Hc]; [|reflexivity].
+  rewrite (put_at_outside _ _ _ _ _ _ E Q M NP). destruct (cassoc col t); [reflexivity|]. now rewrite nget_empty.
+Qed.
+
+Definition outside_same (p : path) (V V' : vtree) : Prop := forall c Q M, is_prefix p Q = false -> get_var V' c Q M = get_var V c Q M.
+Lemma outside_refl p V : outside_same p V V.  Proof. intros c Q M _. reflexivity. Qed.
+Lemma outside_trans p A B C : outside_same p A B -> outside_same p B C -> outside_same p A C.
+Proof. intros H1 H2 c Q M NP. now rewrite H2, H1. Qed.
+
+Section PathFrame.
+  Variable ev : env.
+  Variable p : path.
+  Variable call : N -> path -> vec -> st -> res (vec * st).
+  Hypothesis call_frame : forall cls cq v s y s', call cls (p ++ cq) v s = Ok (y, s') -> outside_same p (s_vars s) (s_vars s').
+
+  Definition insts_under (fr : frame) : Prop := forall i cls cp, lassoc i (f_insts fr) = Some (cls, cp) -> exists cq, cp = p ++ cq.
+
+  Lemma step_outside q input fr s c fr' s' : insts_under fr ->
+    step ev call (p ++ q) input fr s c = Ok (fr', s') -> outside_same p (s_vars s) (s_vars s') /\ insts_under fr'.
+  Proof.
+    intros IU H. unfold step, mut in H. destruct c.
+    - destruct (name_reserved (f_resv fr) nm (Some (e_params ev))); [discriminate|].
+      destruct (has_var (s_vars s) (e_params ev) (p ++ q) nm).
+      + destruct (get_var (s_vars s) (e_params ev) (p ++ q) nm) as [[v|vs]|]; try discriminate.
+        destruct (Nat.eqb (length v) (psize n input)); [|discriminate]. inv H. split; [apply outside_refl|exact IU].
+      + destruct (negb (in_filter (e_mutable ev) (e_params ev))); [destruct (col_empty (s_vars s) (e_params ev)); discriminate|].
+        destruct (make_rng ev (p ++ q) (e_params ev) s) as [s1|] eqn:Er; [|discriminate].
+        destruct (put_var (s_vars s1) (e_params ev) (p ++ q) nm _) as [t'|] eqn:Ep; [|discriminate]. inv H. split; [|exact IU].
+        cbn [s_vars]. rewrite <- (make_rng_vars _ _ _ _ _ Er). exact (put_var_outside _ _ _ _ _ _ _ Ep).
+    - destruct (name_reserved (f_resv fr) nm (Some col)); [discriminate|].
+      destruct (has_var (s_vars s) col (p ++ q) nm).
+      + destruct (get_var (s_vars s) col (p ++ q) nm) as [[v|vs]|]; try discriminate. inv H. split; [apply outside_refl|exact IU].
+      + destruct (negb (in_filter (e_mutable ev) col)); [destruct (col_empty (s_vars s) col); discriminate|].
+        destruct (put_var (s_vars s) col (p ++ q) nm _) as [t'|] eqn:Ep; [|discriminate]. inv H. split; [|exact IU].
+        exact (put_var_outside _ _ _ _ _ _ _ Ep).
+    - destruct (eval (f_locals fr) input e); [|discriminate]. destruct (in_filter (e_mutable ev) col); [|discriminate].
+      destruct (put_var (s_vars s) col (p ++ q) nm _) as [t'|] eqn:Ep; [|discriminate]. inv H. split; [|exact IU].
+      exact (put_var_outside _ _ _ _ _ _ _ Ep).
+    - destruct (eval (f_locals fr) input e); [|discriminate].
+      destruct (negb (in_filter (e_mutable ev) col)); [inv H; split; [apply outside_refl|exact IU]|].
+      destruct (has_var (s_vars s) col (p ++ q) nm).
+      + destruct (get_var (s_vars s) col (p ++ q) nm) as [[v0|vs]|]; try discriminate.
+        destruct (put_var (s_vars s) col (p ++ q) nm _) as [t'|] eqn:Ep; [|discriminate]. inv H. split; [|exact IU].
+        exact (put_var_outside _ _ _ _ _ _ _ Ep).
+      + destruct (name_reserved (f_resv fr) nm (Some col)); [discriminate|].
+        destruct (put_var (s_vars s) col (p ++ q) nm _) as [t'|] eqn:Ep; [|discriminate]. inv H. split; [|exact IU].
+        exact (put_var_outside _ _ _ _ _ _ _ Ep).
+    - destruct (eval (f_locals fr) input e) as [v|]; [|discriminate].
+      destruct (in_filter (e_mutable ev) (e_perturb ev) && negb (has_var (s_vars s) (e_perturb ev) (p ++ q) nm)).
+      + destruct (name_reserved (f_resv fr) nm (Some (e_perturb ev))); [discriminate|].
+        destruct (put_var (s_vars s) (e_perturb ev) (p ++ q) nm _) as [t'|] eqn:Ep; [|discriminate].
+        pose proof (put_var_outside _ _ _ _ _ _ _ Ep) as O. cbn [s_vars] in H.
+        destruct (cassoc (e_perturb ev) t').
+        * destruct (get_var t' (e_perturb ev) (p ++ q) nm) as [[old|vs]|]; try discriminate.
+          destruct (vop add64 v old); [|discriminate]. inv H. split; [exact O|exact IU].
+        * inv H. split; [exact O|exact IU].
+      + destruct (cassoc (e_perturb ev) (s_vars s)).
+        * destruct (get_var (s_vars s) (e_perturb ev) (p ++ q) nm) as [[old|vs]|]; try discriminate.
+          destruct (vop add64 v old); [|discriminate]. inv H. split; [apply outside_refl|exact IU].
+        * inv H. split; [apply outside_refl|exact IU].
+    - destruct (make_rng ev (p ++ q) stream s) as [s1|] eqn:Er; [|discriminate]. inv H. split; [|exact IU].
+      rewrite (make_rng_vars _ _ _ _ _ Er). apply outside_refl.
+    - destruct (eval (f_locals fr) input e); [|discriminate]. inv H. split; [apply outside_refl|].
+      intros i cls cp L. exact (IU i cls cp L).
+    - assert (G : forall name' auto', insts_under (mkFrame (f_locals fr) ((name', None) :: f_resv fr) auto' ((i, (cls, (p ++ q) ++ [name'])) :: f_insts fr))).
+      { intros name' auto' j c0 cp L. unfold lassoc in L. cbn [f_insts find fst] in L. destruct (N.eqb j i).
+        - cbn [option_map snd] in L. inv L. exists (q ++ [name']). now rewrite app_assoc.
+        - exact (IU j c0 cp L). }
+      destruct nm as [n|].
+      + destruct (name_reserved (f_resv fr) (NExp n) None); [discriminate|]. inv H. split; [apply outside_refl|apply G].
+      + match type of H with context[name_reserved ?r ?n None] => destruct (name_reserved r n None) end; [discriminate|]. inv H.
+        split; [apply outside_refl|apply G].
+    - destruct (eval (f_locals fr) input e) as [v|]; [|discriminate].
+      destruct (lassoc i (f_insts fr)) as [[cls cp]|] eqn:L; [|discriminate].
+      destruct (IU _ _ _ L) as [cq ->].
+      destruct (call cls (p ++ cq) v s) as [[y s1]|] eqn:Ec; [|discriminate]. inv H. split; [eapply call_frame; eauto|].
+      intros j c0 cp L'. exact (IU j c0 cp L').
+  Qed.
+
+  Lemma steps_outside q input : forall cs fr s fr' s', insts_under fr ->
+    steps ev call (p ++ q) input fr s cs = Ok (fr', s') -> outside_same p (s_vars s) (s_vars s').
+  Proof.
+    induction cs as [|c r IH]; intros fr s fr' s' IU H; simpl in H; [inv H; apply outside_refl|].
+    destruct (step ev call (p ++ q) input fr s c) as [[fr1 s1]|] eqn:E; [|discriminate].
+    destruct (step_outside _ _ _ _ _ _ _ IU E) as [O IU1].
+    eapply outside_trans; [exact O|eapply IH; eauto].
+  Qed.
+End PathFrame.
+
+(* a module running at scope p ++ q only writes below p *)
+Theorem run_call_outside ev p : forall fuel cls q x s y s', run_call fuel ev cls (p ++ q) x s = Ok (y, s') -> outside_same p (s_vars s) (s_vars s').
+Proof.
+  induction fuel as [|f IH]; intros cls q x s y s' H; [discriminate|]. simpl in H.
+  destruct (lassoc cls (e_classes ev)) as [[body ret]|]; [|discriminate].
+  destruct (steps ev (run_call f ev) (p ++ q) x frame0 s body) as [[fr s1]|] eqn:E; [|discriminate].
+  destruct (eval (f_locals fr) x ret); [|discriminate]. inv H.
+  assert (IU0 : insts_under p frame0) by (intros i c cp L; vm_compute in L; discriminate L).
+  exact (steps_outside ev p (run_call f ev) (fun cls0 cq v0 s0 y0 s0' H0 => IH cls0 cq v0 s0 y0 s0' H0) q x body frame0 s fr s' IU0 E).
+Qed.
+
+(* C05: an identity lift is transparent.  lift.pack hands the child the dicts its scope holds (the sub-trees at p), runs it
+   as a root, and publishes what it leaves back under p, entry by entry.  The plain run is exactly that: same output, below
+   p what the packed run leaves, everything else untouched. *)
+Theorem lift_is_transparent ev fuel cls p x V cs tr y sA' :
+  scope_ok p V -> run_call fuel ev cls p x (mkSt V cs tr) = Ok (y, sA') ->
+  exists sB', run_call fuel ev cls [] x (mkSt (subtree p V) [] []) = Ok (y, sB') /\
+              (forall c q nm, get_var (s_vars sA') c (p ++ q) nm = get_var (s_vars sB') c q nm) /\
+              (forall c Q M, is_prefix p Q = false -> get_var (s_vars sA') c Q M = get_var V c Q M).
+Proof.
+  intros OK H. destruct (child_alone_vars ev fuel cls p x V cs tr y sA' OK H) as (sB' & E & G).
+  exists sB'. split; [exact E|]. split; [intros c q nm; symmetry; apply G|].
+  pose proof H as H'. rewrite <- (app_nil_r p) in H'. exact (run_call_outside ev p fuel cls [] x _ y sA' H').
+Qed.
